@@ -112,6 +112,8 @@ class GenTie:
             path, pick, args = args[0], "class", args[1:]
         elif path == "h:props.C14.klass":
             path, pick, args = args[0], "class", [args[2]] + list(args[1])
+        if path == "h:props.C14.tell_quiet":
+            path = "pyModeS.tell"
         elif path.startswith("h:"):
             return None
         try:
